@@ -59,6 +59,9 @@ type KnownFile struct {
 type Baseline struct {
 	// property -> obligation names that discharge on the unchanged tree (claimed)
 	Claimed map[string][]string `json:"claimed"`
+	// property -> obligations that existed on the unchanged tree without discharging (never
+	// claimed; exempt from the "new structural failure" rule)
+	Unclaimed map[string][]string `json:"unclaimed,omitempty"`
 }
 
 func loadJSON(path string, v interface{}) error {
@@ -255,6 +258,8 @@ func (e *Engine) RunContracts(pc *PropertyCheck, timeout time.Duration, maxPaths
 				o.Kind = "cover"
 				if st.Status != "discharged" {
 					o.Detail = "the antecedent of this clause is not reachable on any returning path (vacuous clause)"
+				} else if !st.CoverSat {
+					o.Detail = fmt.Sprintf("not shown vacuous: no candidate path refuted conclusively, %d undecided by the solvers (reachability not confirmed)", st.CoverUnknown)
 				}
 			} else if st.Status != "discharged" {
 				o.fail = st
@@ -409,6 +414,15 @@ func (e *Engine) Finish(pc *PropertyCheck, level, technique string, extraAssumpt
 	_ = loadJSON(filepath.Join(vdir, "baseline", "obligations.json"), &base)
 	var known KnownFile
 	_ = loadJSON(filepath.Join(vdir, "known_findings.json"), &known)
+	unclaimedAtBaseline := map[string]bool{}
+	{
+		var b0 Baseline
+		if loadJSON(filepath.Join(VerifDir(), "baseline", "obligations.json"), &b0) == nil {
+			for _, n := range b0.Unclaimed[pc.ID] {
+				unclaimedAtBaseline[n] = true
+			}
+		}
+	}
 	claimed := map[string]bool{}
 	for _, n := range base.Claimed[pc.ID] {
 		claimed[n] = true
@@ -516,6 +530,13 @@ func (e *Engine) Finish(pc *PropertyCheck, level, technique string, extraAssumpt
 			// violation even though no baseline entry names it: the enumeration is the claim
 			if !isKnown && o.Kind == "scan" && o.Status == "failed" {
 				report(o, "structural scan failure")
+				continue
+			}
+			// frame, callee-precondition, row-invariant and no-panic obligations exist only where
+			// the code performs the operation: one that appears and definitely fails on a function
+			// under this property's contracts was not there (or not failing) on the unchanged tree
+			if !isKnown && o.Status == "failed" && isStructuralName(n) && !unclaimedAtBaseline[n] {
+				report(o, "new structural obligation fails")
 				continue
 			}
 			// an obligation listed as a known finding that now fails in a way the listing does
@@ -784,15 +805,31 @@ func (e *Engine) frameOnlyObligation(pc *PropertyCheck, ct *sym.Contract) {
 			world = true
 		case m == "bank":
 			declared["bank"] = true
+			declared["bank:supply"] = true
+		case m == "bank-balances":
+			declared["bank"] = true
 		case strings.HasPrefix(m, "module:"):
 			declared["store:"+strings.TrimPrefix(m, "module:")] = true
+		case strings.HasPrefix(m, "table:"):
+			t := m
+			if i := strings.Index(t, "["); i >= 0 {
+				continue // a row-level item does not cover the table
+			}
+			declared[t] = true
 		}
 	}
 	var missing []string
 	eff := e.Frames().MayWrite(ct.Fn)
 	if !world {
 		for _, x := range eff {
-			if !declared[x] {
+			ok := declared[x]
+			if !ok && strings.HasPrefix(x, "table:") {
+				// covered by the module-level item
+				mod := strings.TrimPrefix(x, "table:")
+				mod = strings.TrimSuffix(mod[:strings.Index(mod, ":")], "~")
+				ok = declared["store:"+mod]
+			}
+			if !ok {
 				missing = append(missing, x)
 			}
 		}
@@ -863,8 +900,29 @@ func (e *Engine) heapFrameScan(pc *PropertyCheck, ct *sym.Contract) {
 	pc.Outcomes = append(pc.Outcomes, o)
 }
 
-// mayWriteThrough: some address derived from p is stored to or escapes into a call.
+// mayWriteThrough: some address derived from p is stored to, or handed to a callee that may
+// write through the corresponding parameter (followed into elys callees; any other callee
+// receiving the pointer counts as a writer). Least fixpoint over recursion.
+var mwtMemo = map[*ssa.Parameter]int{} // 0 unknown, 1 in progress, 2 no, 3 yes
+
 func mayWriteThrough(fn *ssa.Function, p *ssa.Parameter) bool {
+	switch mwtMemo[p] {
+	case 1, 2:
+		return false
+	case 3:
+		return true
+	}
+	mwtMemo[p] = 1
+	r := mayWriteThrough1(fn, p)
+	if r {
+		mwtMemo[p] = 3
+	} else {
+		mwtMemo[p] = 2
+	}
+	return r
+}
+
+func mayWriteThrough1(fn *ssa.Function, p *ssa.Parameter) bool {
 	derived := map[ssa.Value]bool{p: true}
 	changed := true
 	for changed {
@@ -904,23 +962,54 @@ func mayWriteThrough(fn *ssa.Function, p *ssa.Parameter) bool {
 				if derived[x.Addr] {
 					return true
 				}
+				if derived[x.Val] {
+					return true // the pointer itself is stored somewhere: it escapes
+				}
+			case *ssa.MakeClosure:
+				for _, bnd := range x.Bindings {
+					if derived[bnd] {
+						return true
+					}
+				}
 			case ssa.CallInstruction:
 				cc := x.Common()
-				if cc.IsInvoke() && derived[cc.Value] {
-					return true
+				if cc.IsInvoke() {
+					if derived[cc.Value] {
+						return true
+					}
+					for _, a := range cc.Args {
+						if derived[a] {
+							return true
+						}
+					}
+					continue
 				}
-				for _, a := range cc.Args {
-					if derived[a] {
-						// a pointer-receiver method or function taking the pointer
+				callee, _ := cc.Value.(*ssa.Function)
+				for i, a := range cc.Args {
+					if !derived[a] {
+						continue
+					}
+					if callee == nil || len(callee.Blocks) == 0 || i >= len(callee.Params) {
+						if callee != nil && readOnlyExternal(callee.String()) {
+							continue
+						}
+						return true
+					}
+					if mayWriteThrough(callee, callee.Params[i]) {
 						return true
 					}
 				}
 			}
 		}
 	}
-	for _, a := range fn.AnonFuncs {
-		for _, fv := range a.FreeVars {
-			_ = fv
+	return false
+}
+
+// readOnlyExternal: library functions that only read through a pointer argument.
+func readOnlyExternal(name string) bool {
+	for _, s := range []string{").String", ").Marshal", ").MustMarshal", "fmt.Sprintf", "fmt.Errorf", ").Size", ").Validate", "proto.CompactTextString", "errors.Wrapf", "errors.Wrap"} {
+		if strings.HasSuffix(name, s) || strings.Contains(name, s+"(") {
+			return true
 		}
 	}
 	return false
@@ -973,4 +1062,13 @@ func uniq(xs []string) []string {
 		}
 	}
 	return out
+}
+
+func isStructuralName(n string) bool {
+	for _, k := range []string{"/frame:", "/pre:", "/rowinv:", "/nopanic"} {
+		if strings.Contains(n, k) {
+			return true
+		}
+	}
+	return false
 }
